@@ -24,69 +24,124 @@ func init() {
 		if fd == nil || fd.Body == nil {
 			fatalf("%s: rootNode.ServeHTTP not found", rp.dir)
 		}
-		found, stores := false, 0
-		ast.Inspect(fd.Body, func(n ast.Node) bool {
-			is, ok := n.(*ast.IfStmt)
-			if !ok || is.Init == nil {
-				return true
-			}
-			as, ok := is.Init.(*ast.AssignStmt)
-			if !ok || as.Tok != token.DEFINE || len(as.Lhs) != 2 || len(as.Rhs) != 1 {
-				return true
-			}
-			ta, ok := as.Rhs[0].(*ast.TypeAssertExpr)
+		// the branch taken when the error is a *ErrorResponse, as an `if v, ok := err.(*…ErrorResponse); ok`
+		// or as a `case *…ErrorResponse:` of a `switch v := err.(type)`
+		isErrResp := func(t ast.Expr) bool {
+			star, ok := t.(*ast.StarExpr)
 			if !ok {
-				return true
+				return false
 			}
-			star, ok := ta.Type.(*ast.StarExpr)
-			if !ok {
-				return true
-			}
-			name := ""
-			switch t := star.X.(type) {
+			switch x := star.X.(type) {
 			case *ast.SelectorExpr:
-				name = t.Sel.Name
+				return x.Sel.Name == "ErrorResponse"
 			case *ast.Ident:
-				name = t.Name
+				return x.Name == "ErrorResponse"
 			}
-			v, ok := as.Lhs[0].(*ast.Ident)
-			if name != "ErrorResponse" || !ok {
-				return true
-			}
+			return false
+		}
+		found, stores := false, 0
+		// a store through the resource's pointer: `v.F = …` before v itself is re-pointed (`v = &copy`);
+		// v handed to another function of the package cannot be judged here
+		judge := func(v string, body []ast.Stmt) {
 			found = true
-			ast.Inspect(is.Body, func(m ast.Node) bool {
-				if st, ok := m.(*ast.AssignStmt); ok {
-					for _, l := range st.Lhs {
-						if sel, ok := l.(*ast.SelectorExpr); ok {
-							if id, ok := sel.X.(*ast.Ident); ok && id.Name == v.Name && id.Obj == v.Obj {
-								stores++
+			repointed := false
+			for _, st := range body {
+				ast.Inspect(st, func(m ast.Node) bool {
+					switch x := m.(type) {
+					case *ast.AssignStmt:
+						for _, l := range x.Lhs {
+							if id, ok := l.(*ast.Ident); ok && id.Name == v && x.Tok == token.ASSIGN {
+								repointed = true
+							}
+							if sel, ok := l.(*ast.SelectorExpr); ok {
+								if id, ok := sel.X.(*ast.Ident); ok && id.Name == v && !repointed {
+									stores++
+								}
+							}
+						}
+					case *ast.CallExpr:
+						if _, isMethod := x.Fun.(*ast.SelectorExpr); isMethod {
+							return true
+						}
+						for _, a := range x.Args {
+							if id, ok := a.(*ast.Ident); ok && id.Name == v && !repointed {
+								fatalf("%s: rootNode.ServeHTTP hands the resource's *ErrorResponse to %s: whether that stores through it is not decided syntactically", rp.dir, printNode(x.Fun))
 							}
 						}
 					}
+					return true
+				})
+			}
+		}
+		ast.Inspect(fd.Body, func(n ast.Node) bool {
+			switch x := n.(type) {
+			case *ast.IfStmt:
+				as, ok := x.Init.(*ast.AssignStmt)
+				if !ok || as.Tok != token.DEFINE || len(as.Lhs) != 2 || len(as.Rhs) != 1 {
+					return true
 				}
-				return true
-			})
+				ta, ok := as.Rhs[0].(*ast.TypeAssertExpr)
+				v, ok2 := as.Lhs[0].(*ast.Ident)
+				if ok && ok2 && ta.Type != nil && isErrResp(ta.Type) {
+					judge(v.Name, x.Body.List)
+				}
+			case *ast.TypeSwitchStmt:
+				as, ok := x.Assign.(*ast.AssignStmt)
+				if !ok || len(as.Lhs) != 1 {
+					return true
+				}
+				v, ok := as.Lhs[0].(*ast.Ident)
+				if !ok {
+					return true
+				}
+				for _, c := range x.Body.List {
+					cc := c.(*ast.CaseClause)
+					if len(cc.List) == 1 && isErrResp(cc.List[0]) {
+						judge(v.Name, cc.Body)
+					}
+				}
+			}
 			return true
 		})
 		if !found {
-			fatalf("%s: rootNode.ServeHTTP has no `if errRes, ok := err.(*…ErrorResponse); ok` branch", rp.dir)
+			fatalf("%s: rootNode.ServeHTTP has no branch for `err.(*…ErrorResponse)` (if-with-assertion or type switch)", rp.dir)
 		}
 		e.f("def errBranchStoresThroughPointer : Bool := %v", stores > 0)
 
 		dp := loadPkg(filepath.Join(root, "d2"))
-		hasVar := false
+		// the shared generators: package-level vars initialised with rand.New(…), whatever their names
+		rngNames := map[string]bool{}
 		for _, f := range dp.files {
 			for _, d := range f.Decls {
 				if gd, ok := d.(*ast.GenDecl); ok && gd.Tok == token.VAR {
-					for _, s := range gd.Specs {
-						for _, n := range s.(*ast.ValueSpec).Names {
-							if n.Name == "rng" {
-								hasVar = true
+					for _, sp := range gd.Specs {
+						vs := sp.(*ast.ValueSpec)
+						for i, n := range vs.Names {
+							if i >= len(vs.Values) {
+								continue
+							}
+							isRand := false
+							ast.Inspect(vs.Values[i], func(m ast.Node) bool {
+								if c, ok := m.(*ast.CallExpr); ok {
+									if sel, ok := c.Fun.(*ast.SelectorExpr); ok && sel.Sel.Name == "New" {
+										if id, ok := sel.X.(*ast.Ident); ok && id.Name == "rand" {
+											isRand = true
+										}
+									}
+								}
+								return true
+							})
+							if isRand {
+								rngNames[n.Name] = true
 							}
 						}
 					}
 				}
 			}
+		}
+		hasVar := len(rngNames) > 0
+		if !hasVar {
+			fatalf("%s: no package-level random generator (a var initialised with rand.New) found", dp.dir)
 		}
 		sites, unlocked := 0, 0
 		if hasVar {
@@ -110,10 +165,10 @@ func init() {
 						if sel.Sel.Name == "Lock" {
 							locks = append(locks, c.Pos())
 						}
-						if id, ok := sel.X.(*ast.Ident); ok && id.Name == "rng" && id.Obj == nil {
+						if id, ok := sel.X.(*ast.Ident); ok && rngNames[id.Name] && id.Obj == nil {
 							// id.Obj == nil: not a local named rng (package-level idents of other files are unresolved)
 							draws = append(draws, c.Pos())
-						} else if ok && id.Name == "rng" && id.Obj != nil && id.Obj.Kind == ast.Var {
+						} else if ok && rngNames[id.Name] && id.Obj != nil && id.Obj.Kind == ast.Var {
 							if _, isField := id.Obj.Decl.(*ast.Field); !isField {
 								if vs, isVS := id.Obj.Decl.(*ast.ValueSpec); isVS && vs != nil {
 									draws = append(draws, c.Pos())
